@@ -19,19 +19,19 @@ type workspace struct {
 }
 
 type wsSpec struct {
-	name    string
-	dir     string
-	loxText string
-	goText  string
-	dump    *jDump
-	loxCode int    // exit status of lox (0 = generated)
-	loxOut  string // its diagnostics
-	loxHung bool
-	built   bool
+	name     string
+	dir      string
+	loxText  string
+	goText   string
+	dump     *jDump
+	loxCode  int    // exit status of lox (0 = generated)
+	loxOut   string // its diagnostics
+	loxHung  bool
+	built    bool
 	buildErr string
-	bin     string
-	tag     any // whatever the generator wants to remember
-	files   map[string]string // all .lox files of the spec (name -> text)
+	bin      string
+	tag      any               // whatever the generator wants to remember
+	files    map[string]string // all .lox files of the spec (name -> text)
 }
 
 func newWorkspace(tag string) *workspace {
